@@ -4,7 +4,7 @@ from runner import Job
 ASSUME = ['clang-14 -O1 lowering preserves semantics; ll2c translation validated every run against the real F64ToDecimal (2000 seeded vectors per job)',
           'oracle for digit generation: exact wide-integer arithmetic in the CBMC glue (lib/job_cbmc.py): the decimal lies in the rounding interval (closed iff the significand is even), no multiple of the next power of ten lies in it (shortest), neither neighbour at the same exponent is closer (ties: even digit)',
           'claim is per (binary exponent, window of 2^10 consecutive significands); W=16 windows measured out of reach for most exponents (no verdict in 900 s). Significands outside the windows are not claimed',
-          'formatting (fixed / scientific / integer fast path / -0.0 / length <= 32 / reads back / shortest and closest vs python repr) is checked end to end on ~45 000 doubles from 32 bit-pattern templates, each a concrete execution of the real F64toa chosen by the engine forking over symbolic hex digits: enumeration, not a universal claim']
+          'formatting (fixed / scientific / integer fast path / -0.0 / length <= 32 / reads back / shortest and closest vs python repr) is checked end to end on ~45 000 doubles from 42 bit-pattern templates (incl. every power of two), each a concrete execution of the real F64toa chosen by the engine forking over symbolic hex digits: enumeration, not a universal claim']
 
 
 def kk(bexp, irregular):
@@ -27,9 +27,11 @@ def jobs(tier, seed):
             J.append(Job('C07.dec.b%d.f%d' % (bexp, base), 'harness/c_f64dec.cpp', '@h_f64dec', [bexp, base, W, 0, lo & 0xffffffff, (lo + 1) & 0xffffffff], engine='cbmc', timeout=3000,
                          bound='F64ToDecimal, biased exponent %d, all %d fractions base=%d + delta (%s)' % (bexp, 1 << W, base, desc),
                          extra=dict(bigw=bigw, unwind=402, input_names=[('int', 'delta')], cbmc_timeout=2400, witness_param=3, validate_vectors=2000, seed=seed)))
-    for t in range(32):
+    for t in range(42):
         J.append(Job('C07.text.t%d' % t, 'harness/c_ftoatext.cpp', '@h_ftoatext', [t], nproc=2, max_paths=100000,
                      bound='F64toa on bit-pattern template #%d (harness/c_ftoatext.cpp kTmpl), every value of its symbolic hex digits' % t))
+    J.append(Job('C07.table.Pow10CeilSig', 'harness/c_f64dec.cpp', '@h_f64dec', [], engine='ground', bound='all 617 rows of the Schubfach table g[k] = ceil(10^k * 2^(127 - floor(log2 10^k))), k = -292..324, read from the IR',
+                 extra=dict(symbol='Pow10CeilSig', k0=-292, kmax=324, formula='ceil_hi_lo', what='C07: Pow10CeilSig table')))
     return J
 
 
